@@ -22,7 +22,7 @@ CLAIMED = {
             "Held-on-K-executions (sampled trial histories = seeds). Exploration: the property quantifies over all histories; termination is restated as bounded progress under a watchdog (inconclusive, never a violation).",
             "trusts mon/ref/mdp.py; res.converged is not consulted", "§4 C04"),
     "C05": ("runtime monitoring: boundary recorder on AStarSearch/BreadthFirstSearch.plan_on (results, internal assertions); oracle = own Dijkstra/BFS-level computation with exact integer costs, path validated step by step against the graph and the returned policy",
-            "Held-on-K-executions over generated digraphs x heuristics x tie-breaking x seeds x 5 presentations. Exploration: all-inputs property.",
+            "Held-on-K-executions over generated digraphs x heuristics x tie-breaking x seeds x 6 presentations (incl. models rebuilt from 0/1 arrays) plus dense graphs of 150-450 nodes. Exploration: all-inputs property.",
             "trusts the 40-line Dijkstra/BFS reference in the check; heuristics finite and consistent by construction", "§4 C05"),
     "C11": ("runtime monitoring: boundary recorder on every distribution operation for every kind (dict/uniform/deterministic/softmax/table-row, mixed-kind operands) + sample monitor (every seeded draw must have positive probability, equal seeds give equal sequences); oracle = the laws computed on plain weight dictionaries",
             "Held-on-K-executions of the probability laws over generated distributions incl. zero-probability and unnormalised entries. Exploration: all-inputs property.",
@@ -63,9 +63,9 @@ CLAIMED = {
     "C08": ("runtime monitoring: pointbasedvalueiteration.point_based_value_iteration wrapped source-free to capture the belief set the returned alpha vectors were computed on and the number k of back-ups; boundary recorder on policy.value/action_value/action_dist; oracle = independent exact expectimax bracket [L,U] of V*(b) with sound leaf bounds, belief-weighted reference MDP action values, point-based residual and k-step exactness on successor-closed belief sets",
             "Held-on-K-executions over generated POMDPs, thresholds, horizons, budgets and beliefs. Exploration: all-inputs property; V* is only bracketed, never computed exactly.",
             "trusts mon/ref/pomdp.py (expectimax on unnormalised beliefs) and mon/ref/mdp.py; slack uses k observed at run time", "§4 C08"),
-    "C09": ("runtime monitoring: boundary recorder on stochastic_fsc_policy_evaluation_exact; the same function wrapped as seen from the bounded-policy-iteration module records every value table inside one train_on (monotonicity); StochasticFiniteStateController driven along all action/observation histories up to length 3 and its agent state compared with the hidden-node forward algorithm; reference cross-product solve with absorbing states terminal",
+    "C09": ("runtime monitoring: boundary recorder on stochastic_fsc_policy_evaluation_exact; the same function wrapped as seen from the bounded-policy-iteration module records every value table inside one train_on (monotonicity); StochasticFiniteStateController driven along all action/observation histories up to length 3 and its agent state compared with the hidden-node forward algorithm; reference cross-product solve with absorbing states terminal; source-free probe on scipy.optimize.linprog during bounded policy iteration (facts for exceptions raised by its own assertions)",
             "Held-on-K-executions over generated POMDPs, controllers, histories and learner seeds. Exploration: all-inputs / all-histories property.",
-            "trusts mon/ref/fsc.py and mon/ref/pomdp.py; known finding C09-fsc-evaluation-ignores-absorbing-states is mechanism-keyed", "§4 C09"),
+            "trusts mon/ref/fsc.py and mon/ref/pomdp.py; known findings C09-fsc-evaluation-ignores-absorbing-states and C09-bpi-accepts-lp-solutions-at-solver-noise-level are mechanism-keyed", "§4 C09"),
 }
 
 PENDING_REASON = "check not built yet in this round (design in DESIGN.md §4); not claimed until its monitor exists and is silent on the unchanged tree"
